@@ -11,7 +11,7 @@ def spec(tier):
     else:
         octs = ",".join("oct:%d" % n for n in (0, 1, 16, 31, 32, 33, 47, 48, 49, 63, 64, 65, 96, 128, 160))
         rsas = "rsa:1024,rsa:2047,rsa:2048"
-    keys = "%s,%s,ec:P-256,ec:P-384,ec:P-521,ec:secp256k1,okp:Ed25519,okp:Ed448,okp:X25519" % (octs, rsas)
+    keys = "%s,%s,ec:P-256,ec:P-384,ec:P-521,ec:secp256k1,ec:brainpoolP512r1,ec:brainpoolP384r1,ec:brainpoolP256r1,okp:Ed25519,okp:Ed448,okp:X25519" % (octs, rsas)
     # every alg both as explicit alg (key without alg) and as key alg attribute (no explicit alg); tokens signed by the
     # harness with the weak key for every header alg the key's family can sign
     return "prov=0,1;route=0,1;cfg=0..14;keys=%s;kalg=-1,1..14;pub=0,1;hdr=1..14;sig=2;op=v,g;pinonly=1" % keys
@@ -19,7 +19,7 @@ def spec(tier):
 
 def run(tier, seed, replay):
     rep = vf.Report("C09", tier, seed)
-    rep.rule = ("complete enumeration of key (oct length, RSA modulus size, EC curve, OKP curve) x algorithm x "
+    rep.rule = ("complete enumeration of key (oct length, RSA modulus size, EC curve incl. 256/384/512-bit brainpool curves, OKP curve) x algorithm x "
                 "{explicit alg, key alg attribute} x {setkey, callback} x {generate, verify of a harness-signed token} x provider; "
                 "distinct = distinct (op, provider, key, alg, outcome) tuples")
     rep.assumptions = ["verify-side tokens are signed by the harness' own signer with the weak key, so only the floor can reject them",
